@@ -211,7 +211,21 @@ func genC15(seed uint64, idx int) c15Data {
 	sc := &d.Scenario
 	sc.WriteFail = -1
 	sc.Flags = append([]string{}, kernel.Pick(r, outFlagSets)...)
-	sc.Indent = r.Range(0, 9)
+	sc.Indent = kernel.Pick(r, []int{0, 0, 1, 2, 3, 4, 5, 6, 7, 8, 9, 9})
+	if r.Bool(0.5) {
+		// every combination of the output flags, in any order (precedence: -c over --tab over --indent n;
+		// --raw-output0 over -j over -r)
+		sc.Flags = sc.Flags[:0]
+		for _, f := range []string{"-c", "-r", "-j", "--raw-output0", "--tab", "--indent"} {
+			if r.Bool(0.3) {
+				sc.Flags = append(sc.Flags, f)
+			}
+		}
+		fl := append([]string{}, sc.Flags...)
+		for i, j := range r.Perm(len(fl)) {
+			sc.Flags[i] = fl[j]
+		}
+	}
 	if r.Bool(0.3) {
 		sc.Flags = append(sc.Flags, "-e")
 	}
